@@ -217,3 +217,26 @@ Proof.
     cbn [conv display_expr app lit list_ascii_of_string]; apply paren_not_register.
 Qed.
 
+
+(** registers r0 .. r31 *)
+Lemma index_r x : index_ops ("r"%char :: x) = None.
+Proof. reflexivity. Qed.
+Lemma reg8_one d1 rest : is_digit d1 = true -> match rest with c :: _ => is_digit c = false | [] => True end ->
+  Lines.reg8 ("r"%char :: d1 :: rest) =
+  (let v := digits_val 10 [d1] 0 in if (v <? 32)%N && negb ((1 =? 2)%nat && (code d1 =? 48)%N) then Some (v, rest) else None).
+Proof.
+  intros H Hr. unfold Lines.reg8. change (code "r" =? 114)%N with true. cbn [orb andb]. rewrite H.
+  destruct rest as [|c r]; [reflexivity|]. rewrite Hr. reflexivity.
+Qed.
+Theorem register_roundtrip n rest : (n < 32)%N -> neutral_rest rest -> instruction_op (display_iop (OR8 n) ++ rest) = Some (OR8 n, rest).
+Proof.
+  intros Hlt Hn. pose proof (neutral_hd rest Hn) as Hh.
+  assert (Hd : match rest with c :: _ => is_digit c = false | [] => True end).
+  { destruct rest as [|c r]; [exact I|]. cbn in Hh. apply negb_true_iff in Hh. destruct (is_digit c) eqn:E; [apply Hdigit in E; congruence | reflexivity]. }
+  assert (C : exists m, m < 32 /\ n = N.of_nat m) by (exists (N.to_nat n); split; lia).
+  destruct C as (m & Hm & ->). cbn [display_iop]. unfold instruction_op.
+  change ((lit "r" ++ show_N (N.of_nat m)) ++ rest)%list with ("r"%char :: (show_N (N.of_nat m) ++ rest))%list. rewrite index_r.
+  do 10 (destruct m as [|m]; [rewrite show_N_dig by lia; cbn [app]; rewrite reg8_one by (first [reflexivity | exact Hd]); reflexivity|]).
+  do 22 (destruct m as [|m]; [reflexivity|]).
+  lia.
+Qed.
